@@ -467,9 +467,45 @@ func init() {
 		"(*sync.RWMutex).Unlock":  mutexUnlock,
 		"(*sync.RWMutex).RLock":   mutexLock,
 		"(*sync.RWMutex).RUnlock": mutexUnlock,
-		"(*sync.WaitGroup).Add":   wgAdd,
-		"(*sync.WaitGroup).Done":  wgDone,
-		"(*sync.WaitGroup).Wait":  wgWait,
+		// sync.Pool as seen by one P of the runtime: Put fills the private slot if it is empty, else
+		// pushes on the shared list; Get takes the private slot first, then the most recently shared
+		// item, then calls New (the runtime may also drop items at a GC; not modelled)
+		"(*sync.Pool).Put": func(e *Exec, fn *ssa.Function, a []Value) (Value, *GoPanic) {
+			e.envInit()
+			k := syncKey(a[0].(*Ptr))
+			if iv, ok := a[1].(*IfaceV); ok && iv.T == nil {
+				return nil, nil
+			}
+			if e.env.poolPriv[k] == nil {
+				e.env.poolPriv[k] = a[1]
+			} else {
+				e.env.pools[k] = append(e.env.pools[k], a[1])
+			}
+			return nil, nil
+		},
+		"(*sync.Pool).Get": func(e *Exec, fn *ssa.Function, a []Value) (Value, *GoPanic) {
+			e.envInit()
+			pp := a[0].(*Ptr)
+			k := syncKey(pp)
+			if v := e.env.poolPriv[k]; v != nil {
+				e.env.poolPriv[k] = nil
+				return v, nil
+			}
+			if l := e.env.pools[k]; len(l) > 0 {
+				v := l[len(l)-1]
+				e.env.pools[k] = l[:len(l)-1]
+				return v, nil
+			}
+			st := e.load(pp).(*StructV)
+			newFn, _ := st.F[len(st.F)-1].(*FuncV) // the exported field New is the last one
+			if newFn == nil || newFn.Fn == nil {
+				return &IfaceV{}, nil
+			}
+			return e.invoke(deferred{fn: newFn})
+		},
+		"(*sync.WaitGroup).Add":  wgAdd,
+		"(*sync.WaitGroup).Done": wgDone,
+		"(*sync.WaitGroup).Wait": wgWait,
 		"sync/atomic.CompareAndSwapUint32": func(e *Exec, fn *ssa.Function, a []Value) (Value, *GoPanic) {
 			p := a[0].(*Ptr)
 			old := e.atomicLoad(p).(*Term)
